@@ -18,41 +18,42 @@ open Goml Goml.Anf
 
 def showList (f : α → String) (xs : List α) : String := " ".intercalate (xs.map f)
 
-mutual
-partial def showExpr : Expr → String
-  | .var x ty => s!"(var {x} {reprStr ty})"
-  | .prim p => s!"(prim {reprStr p})"
-  | .tag i ty => s!"(tag {i} {reprStr ty})"
-  | .constr c ty args => s!"(constr {reprStr c} {reprStr ty} {showList showExpr args})"
-  | .tuple ty items => s!"(tuple {reprStr ty} {showList showExpr items})"
-  | .array ty items => s!"(array {reprStr ty} {showList showExpr items})"
-  | .closure ty ps b => s!"(closure {reprStr ty} {reprStr ps} {showExpr b})"
-  | .letE x v b => s!"(let {x} {showExpr v} {showExpr b})"
-  | .matchE ty s arms d =>
-    s!"(match {reprStr ty} {showExpr s} ({showList showArm arms}) {match d with | some d => showExpr d | none => "none"})"
-  | .ite c t e => s!"(if {showExpr c} {showExpr t} {showExpr e})"
-  | .while c b => s!"(while {showExpr c} {showExpr b})"
-  | .go e => s!"(go {showExpr e})"
-  | .cget c i ty e => s!"(cget {reprStr c} {i} {reprStr ty} {showExpr e})"
-  | .un op ty e => s!"(un {reprStr op} {reprStr ty} {showExpr e})"
-  | .bin op ty l r => s!"(bin {reprStr op} {reprStr ty} {showExpr l} {showExpr r})"
-  | .call ty f args => s!"(call {reprStr ty} {showExpr f} {showList showExpr args})"
-  | .toDyn tr ft ty e => s!"(todyn {tr} {reprStr ft} {reprStr ty} {showExpr e})"
-  | .dynCall tr m ty r args => s!"(dyncall {tr} {m} {reprStr ty} {showExpr r} {showList showExpr args})"
-  | .traitCall tr m ty r args => s!"(traitcall {tr} {m} {reprStr ty} {showExpr r} {showList showExpr args})"
-  | .proj i ty e => s!"(proj {i} {reprStr ty} {showExpr e})"
-partial def showArm : Arm → String
-  | .mk l b => s!"(arm {showExpr l} {showExpr b})"
-end
-
-def showFn (f : Fn) : String :=
-  s!"(fn {f.name} {reprStr f.params} {reprStr f.ret} {showExpr f.body})"
-
 /-- `t<digits>` -/
 def tmpIndex (x : String) : Option Nat :=
   match x.toList with
   | 't' :: ds => if !ds.isEmpty && ds.all Char.isDigit then (String.ofList ds).toNat? else none
   | _ => none
+
+mutual
+/-- `er`: do not print the type annotation of references to temporaries -/
+partial def showExprE (er : Bool) : Expr → String
+  | .var x ty => if er && (tmpIndex x).isSome then s!"(var {x} _)" else s!"(var {x} {reprStr ty})"
+  | .prim p => s!"(prim {reprStr p})"
+  | .tag i ty => s!"(tag {i} {reprStr ty})"
+  | .constr c ty args => s!"(constr {reprStr c} {reprStr ty} {showList (showExprE er) args})"
+  | .tuple ty items => s!"(tuple {reprStr ty} {showList (showExprE er) items})"
+  | .array ty items => s!"(array {reprStr ty} {showList (showExprE er) items})"
+  | .closure ty ps b => s!"(closure {reprStr ty} {reprStr ps} {showExprE er b})"
+  | .letE x v b => s!"(let {x} {showExprE er v} {showExprE er b})"
+  | .matchE ty s arms d =>
+    s!"(match {reprStr ty} {showExprE er s} ({showList (showArmE er) arms}) {match d with | some d => showExprE er d | none => "none"})"
+  | .ite c t e => s!"(if {showExprE er c} {showExprE er t} {showExprE er e})"
+  | .while c b => s!"(while {showExprE er c} {showExprE er b})"
+  | .go e => s!"(go {showExprE er e})"
+  | .cget c i ty e => s!"(cget {reprStr c} {i} {reprStr ty} {showExprE er e})"
+  | .un op ty e => s!"(un {reprStr op} {reprStr ty} {showExprE er e})"
+  | .bin op ty l r => s!"(bin {reprStr op} {reprStr ty} {showExprE er l} {showExprE er r})"
+  | .call ty f args => s!"(call {reprStr ty} {showExprE er f} {showList (showExprE er) args})"
+  | .toDyn tr ft ty e => s!"(todyn {tr} {reprStr ft} {reprStr ty} {showExprE er e})"
+  | .dynCall tr m ty r args => s!"(dyncall {tr} {m} {reprStr ty} {showExprE er r} {showList (showExprE er) args})"
+  | .traitCall tr m ty r args => s!"(traitcall {tr} {m} {reprStr ty} {showExprE er r} {showList (showExprE er) args})"
+  | .proj i ty e => s!"(proj {i} {reprStr ty} {showExprE er e})"
+partial def showArmE (er : Bool) : Arm → String
+  | .mk l b => s!"(arm {showExprE er l} {showExprE er b})"
+end
+
+def showFn (er : Bool) (f : Fn) : String :=
+  s!"(fn {f.name} {reprStr f.params} {reprStr f.ret} {showExprE er f.body})"
 
 mutual
 partial def letTmps : Expr → List Nat
@@ -62,6 +63,8 @@ partial def letTmps : Expr → List Nat
   | .while c b => letTmps c ++ letTmps b
   | _ => []
 end
+
+def clean (s : String) : String := s.map (fun c => if c == '\t' || c == '\n' then ' ' else c)
 
 def firstDiff (a b : String) : String :=
   let la := a.toList
@@ -73,14 +76,22 @@ def firstDiff (a b : String) : String :=
   let lo := i - 60
   s!"at {i}: model=…{String.ofList ((la.drop lo).take 160)}… real=…{String.ofList ((lb.drop lo).take 160)}…"
 
-def cmpFns (model real : List Fn) : Option String :=
+def cmpFns (er : Bool) (model real : List Fn) : Option String :=
   if model.length != real.length then some s!"function count {model.length} vs {real.length}" else
   (model.zip real).findSome? fun (m, r) =>
-    let sm := showFn m
-    let sr := showFn r
+    let sm := showFn er m
+    let sr := showFn er r
     if sm == sr then none else some s!"fn {r.name} {firstDiff sm sr}"
 
-def clean (s : String) : String := s.map (fun c => if c == '\t' || c == '\n' then ' ' else c)
+/-- `EQ`: exact; `EQT`: equal except for the type annotation of references to temporaries (the
+    dump does not carry the `ty` field of `ELet`/`EIf`, which `tyOf` recomputes from the body) -/
+def verdict (model real : List Fn) : String :=
+  match cmpFns false model real with
+  | none => "EQ"
+  | some d =>
+    match cmpFns true model real with
+    | none => "EQT " ++ clean d
+    | some d' => "DIFF " ++ clean d'
 
 def runLine (l : String) : String :=
   let (id, rest) := splitTab l
@@ -89,11 +100,11 @@ def runLine (l : String) : String :=
     match decProg lift, decProg anf0, decProg anfp with
     | some L, some A0, some AP =>
       let m0 := anfProg L 0
-      let r0 := match cmpFns m0.fns A0.fns with | none => "EQ" | some d => "DIFF " ++ clean d
+      let r0 := verdict m0.fns A0.fns
       let s := (AP.fns.flatMap (fun f => letTmps f.body)).foldl min (AP.fns.flatMap (fun f => letTmps f.body)).head!
       let s := if (AP.fns.flatMap (fun f => letTmps f.body)).isEmpty then 0 else s
       let mp := anfProg L s
-      let rp := match cmpFns mp.fns AP.fns with | none => "EQ" | some d => "DIFF " ++ clean d
+      let rp := verdict mp.fns AP.fns
       let nf := L.fns.length
       let nLift := (L.fns.filter (fun f => isLift f.body)).length
       let nA := (A0.fns.filter (fun f => isA f.body)).length
